@@ -26,7 +26,7 @@ def conditions(tier):
     import pipe
     import h_c01 as H
     quick = tier == 'quick'
-    T = 140 if quick else 1500
+    T = 240 if quick else 1500
     NT = pipe.N_TYPES
     conds = []
     cks = (0, 1, 2, 3)
